@@ -63,6 +63,9 @@ func C08(c *vf.Check) {
 		exp := normEvents(tc.Obs, keys...)
 		got := ""
 		o := outs[i]
+		if o.Status == "notrun" {
+			continue
+		}
 		if o.Status != "ok" {
 			got = "driver status: " + o.Status + " " + vf.Trunc(o.Crash, 400)
 		} else {
